@@ -118,18 +118,20 @@ def insertKV {α : Type} (k : Nat) (v : α) : List (Nat × α) → List (Nat × 
 def dedupe (log : List Upd) : List Upd :=
   (log.foldl (fun m u => insertKV u.key u m) []).map (·.2)
 
+/-- `if sorted_idx < len && entries[sorted_idx].key == *update_key { sorted_idx += 1 }`. -/
+def skipEq (x : Nat) : List Entry → List Entry
+  | e :: r => if e.key = x then r else e :: r
+  | [] => []
+
 /-- the merge walk of `flush_updates_for_bucket`: for every update key in ascending order copy
 the sorted entries with smaller key, skip an equal one, emit the update unless it is a
 tombstone; finally copy the remaining sorted entries. -/
 def mergeWalk : List Entry → List Upd → List Entry
   | s, [] => s
   | s, u :: us =>
-    let before := s.takeWhile (fun e => e.key < u.key)
-    let rest := s.dropWhile (fun e => e.key < u.key)
-    let rest' := match rest with
-      | e :: r => if e.key = u.key then r else e :: r
-      | [] => []
-    before ++ (if u.status ≠ stDelete then [u.toEntry] else []) ++ mergeWalk rest' us
+    s.takeWhile (fun e => e.key < u.key)
+      ++ ((if u.status = stDelete then [] else [u.toEntry])
+      ++ mergeWalk (skipEq u.key (s.dropWhile (fun e => e.key < u.key))) us)
 
 /-- in-memory part of `flush_updates_for_bucket` (merge, then `update_section.clear()`). -/
 def flushB (b : Bucket) : Bucket := ⟨mergeWalk b.sorted (dedupe b.log), []⟩
@@ -247,6 +249,12 @@ def appendWithFlush (cfg : Cfg) (s : State) (b : Nat) (u : Upd) : State × Bool 
         | (pg, true) => (s1.setMem b { bk1 with pages := pg }, true)
         | (_, false) => (s1, false)
 
+/-- `self.indices.entry(index_id).or_insert_with(|| IndexFile { .. empty .. })`. -/
+def ensureBucket (s : State) (b : Nat) : State :=
+  match s.mem b with
+  | some _ => s
+  | none => s.setMem b Bucket.empty
+
 /-- `iter_entries`: buckets in `BTreeMap` order. -/
 def iter (s : State) : List (Nat × Entry) :=
   (List.range nBuckets).flatMap fun b =>
@@ -266,11 +274,7 @@ def reload (s : State) : State :=
 
 def step (cfg : Cfg) (s : State) : Op → State × Out
   | .add k id off size =>
-    let b := bucketOf k
-    let s0 := match s.mem b with
-      | some _ => s
-      | none => s.setMem b Bucket.empty
-    match appendWithFlush cfg s0 b ⟨k, id, off, size, 0⟩ with
+    match appendWithFlush cfg (ensureBucket s (bucketOf k)) (bucketOf k) ⟨k, id, off, size, 0⟩ with
     | (s1, true) => (s1, .ok)
     | (s1, false) => (s1, .err)
   | .remove k =>
